@@ -84,6 +84,14 @@ type GenSpec struct {
 	OutputConstraint *string  `json:"output_constraint,omitempty"`
 	Gomaxprocs       int      `json:"gomaxprocs,omitempty"`
 	Umask            int      `json:"umask,omitempty"` // 0 → 022
+	// FileAge is the simulated age of the tree relative to the run. The go command reads a
+	// package directory through its module index only when no file in it was modified within
+	// the last 2 seconds (real time), and the two paths disagree on files that are excluded
+	// by a build constraint but have no parsable package clause. "" / "settled": every file
+	// gets an old, unique mtime before the run (index path, the normal case for a user);
+	// "fresh": the index is disabled for the run (GODEBUG=goindex=0), which is what a run
+	// within 2 s of the last modification sees.
+	FileAge string `json:"file_age,omitempty"`
 	// Env overrides process environment variables of the node (ambient state that must not
 	// reach the output: USER, HOME, LANG, TZ, HOSTNAME …).
 	Env map[string]string `json:"env,omitempty"`
